@@ -13,7 +13,6 @@ package main
 // Rules classify paths and compare the resulting decision table with an oracle.
 
 import (
-	"os"
 	"math/bits"
 	"fmt"
 	"go/constant"
